@@ -97,12 +97,12 @@ func propSign(t *rapid.T) {
 	if !ok {
 		t.Skip("k' = 0")
 	}
-	delivery := gen.Sampled([]string{"whole", "1-byte", "chunks", "extra"}).Draw(t, "delivery")
+	delivery := gen.Sampled([]string{"whole", "1-byte", "chunks", "extra", "process-default", "process-default-chunks"}).Draw(t, "delivery")
 	rd := &gen.ScriptedReader{Data: append([]byte(nil), aux...), FailAfter: -1}
 	switch delivery {
 	case "1-byte":
 		rd.Chunks = []int{1}
-	case "chunks":
+	case "chunks", "process-default-chunks":
 		rd.Chunks = rapid.SliceOfN(rapid.IntRange(1, 33), 1, 5).Draw(t, "chunks")
 	case "extra":
 		rd.Data = append(rd.Data, gen.Bytes(t, 1, 40, "extra")...)
@@ -118,7 +118,14 @@ func propSign(t *rapid.T) {
 	// signed as they are): whatever a generic caller passes, the signature is the BIP-340 one
 	opts := gen.Sampled([]crypto.SignerOpts{nil, nil, crypto.SHA256, crypto.SHA512, crypto.SHA1, crypto.Hash(0),
 		&secec.ECDSAOptions{Hash: crypto.SHA384, Encoding: secec.EncodingCompact}}).Draw(t, "signer-opts")
-	sig, err := key.Sign(rd, msg, opts)
+	var sig []byte
+	if strings.HasPrefix(delivery, "process-default") {
+		// nil reader: the aux randomness is whatever the process-wide source (crypto/rand.Reader) yields
+		rd.Data = append(rd.Data, gen.Bytes(t, 0, 40, "extra")...)
+		gen.WithProcessEntropy(rd, func() { sig, err = key.Sign(nil, msg, opts) })
+	} else {
+		sig, err = key.Sign(rd, msg, opts)
+	}
 	if err != nil {
 		t.Fatalf("Sign failed: %v", err)
 	}
@@ -172,11 +179,18 @@ func propAuxFailure(t *rapid.T) {
 	if rapid.Bool().Draw(t, "chunked") {
 		rd.Chunks = rapid.SliceOfN(rapid.IntRange(1, 33), 1, 4).Draw(t, "chunks")
 	}
-	stat.Case("auxfail", []string{fmt.Sprintf("j:%d", j)}, true, []byte(fmt.Sprintf("%d|%x|%x|%v", j, dPrime, msg, rd.Chunks)), func() any {
-		return map[string]any{"fail_after": j, "chunks": rd.Chunks}
+	source := gen.Sampled([]string{"argument", "argument", "process-default"}).Draw(t, "source")
+	stat.Case("auxfail", []string{fmt.Sprintf("j:%d", j), "source:" + source}, true, []byte(fmt.Sprintf("%d|%x|%x|%v|%s", j, dPrime, msg, rd.Chunks, source)), func() any {
+		return map[string]any{"fail_after": j, "chunks": rd.Chunks, "source": source}
 	})
 	key, _ := bitcoin.NewSchnorrPrivateKey(ref.B32(dPrime))
-	sig, err := key.Sign(rd, msg, nil)
+	var sig []byte
+	var err error
+	if source == "argument" {
+		sig, err = key.Sign(rd, msg, nil)
+	} else { // nil argument: the process-wide source is the reader
+		gen.WithProcessEntropy(rd, func() { sig, err = key.Sign(nil, msg, nil) })
+	}
 	if j < 32 {
 		if err == nil || sig != nil {
 			t.Fatalf("Sign succeeded although the aux source failed after %d bytes", j)
